@@ -44,7 +44,7 @@ LIN = dict(engine="lin", scale_quick=8, scale_thorough=40, timeout_quick=900, ti
 TBL = dict(engine="tbl", scale_quick=4, scale_thorough=40, timeout_quick=600, timeout_thorough=3000)
 TBL_RULE = ("tbl engine (the tie between the Coq model of the table's concurrency protocol, HashMapConc.v, and map.go): 60 schedules per unit of scale over 3-7 concurrent Compute (set / delete / add / keep), Get and Range calls on a table "
             "prepared in one of three stages - 121 keys in 32 buckets so that an insert into a full chain must grow the table first; a 64-bucket table emptied to 3 keys so that deletes shrink it (or take the flag and give up); a handful of keys - "
-            "every call parks at the protocol's hook points (Compute: before/after the root bucket's Lock, before the newer-table check, after both checks; resize: before the CAS on the flag, before the copy, before each source bucket some call's key lives in, "
+            "every call parks at the protocol's hook points (Compute: before/after the root bucket's Lock, before the newer-table check, after both checks, between the Unlock of an insert/delete and the adjustment of the size counter; resize: before the CAS on the flag, before the copy, before each source bucket some call's key lives in, "
             "before the publication, before the flag is cleared; Get: after the table load; Range: after the table load and before the Lock of each bucket some call's key lives in); exactly one goroutine is resumed at a time and runs to its next point, to its return, or until the runtime reports it blocked on a bucket lock or on the resize condition; "
             "after every macro step every thread's position, the table length, the resizing flag, the binding each invoked function was given, each Get's value and, key by key, what each finished Range yielded must be the model's, and at the end the content and Size (against both the model's table and the model's size counter); "
             "implementation-only oracles: each function invoked exactly once, on the binding a sequential map (functions applied in invocation order) has, final Range/Size equal to that map, no deadlock, a Range yields no key twice, every key bound during its whole duration, and only bindings the key had meanwhile")
